@@ -213,6 +213,11 @@ def const_int(v):
     return None
 
 
+class Undecided(AnalysisError):
+    """a test that depends on data and has no answer (no policy, or the policy declined): distinct from an idiom the
+    evaluator cannot read"""
+
+
 class RaiseReached(AnalysisError):
     """the analysed path ends in a raise statement"""
 
@@ -608,8 +613,8 @@ class Evaluator:
             return False
         if isinstance(v, Rat) and v.is_const():
             return v.const_value() != 0
-        raise AnalysisError("E3: branch `%s` does not fold to a constant (line %d)"
-                            % (unparse(test)[:60], test.lineno))
+        raise Undecided("E3: branch `%s` does not fold to a constant (line %d)"
+                        % (unparse(test)[:60], test.lineno))
 
     def assign(self, target, val, env):
         if isinstance(target, ast.Name):
@@ -832,6 +837,9 @@ class Evaluator:
     def eval(self, node, env):
         if node is None:
             return None
+        pre = self.__dict__.get("_pre")
+        if pre and id(node) in pre:
+            return pre.pop(id(node))        # handed down by a sub-evaluator that already evaluated this node
         m = getattr(self, "e_" + type(node).__name__, None)
         if m is None:
             raise AnalysisError("E3: unsupported expression %s (line %d)" % (type(node).__name__, node.lineno))
@@ -1023,11 +1031,11 @@ class Evaluator:
             if isinstance(v, Rat):
                 if v.is_const():
                     return v.const_value()
-                raise AnalysisError("E3: comparison of a non-constant `%s` (line %d)" % (v.key()[:40], node.lineno))
+                raise Undecided("E3: comparison of a non-constant `%s` (line %d)" % (v.key()[:40], node.lineno))
             if isinstance(v, (list, tuple)):
                 return [norm(x) for x in v]
             if isinstance(v, (Arr, Opaque)):
-                raise AnalysisError("E3: comparison of an array (line %d)" % node.lineno)
+                raise Undecided("E3: comparison of an array (line %d)" % node.lineno)
             return v
         if isinstance(op, (ast.Is, ast.IsNot)):
             r = (a is b) if (a is None or b is None or isinstance(a, bool) or isinstance(b, bool)) else None
@@ -1087,7 +1095,7 @@ class Evaluator:
         for v in node.values:
             r = self.eval(v, env)
             if not isinstance(r, bool):
-                raise AnalysisError("E3: boolean operand does not fold (line %d)" % node.lineno)
+                raise Undecided("E3: boolean operand does not fold (line %d)" % node.lineno)
             if is_and and not r:
                 return False
             if not is_and and r:
@@ -1182,8 +1190,13 @@ class Evaluator:
     def e_IfExp(self, node, env):
         return self.eval(node.body if self.decide(node.test, env) else node.orelse, env)
 
-    def e_Subscript(self, node, env):
-        base = self.eval(node.value, env)
+    _NOBASE = object()
+
+    def e_Subscript(self, node, env, base=_NOBASE):
+        """`base`: the already evaluated value of node.value (sub-evaluators that look at it first hand it down, so that a
+        call in the subscripted expression is evaluated -- and logged -- once)"""
+        if base is Evaluator._NOBASE:
+            base = self.eval(node.value, env)
         if isinstance(base, (Arr, Opaque)) and not isinstance(node.slice, (ast.Slice, ast.Tuple, ast.Constant)):
             sel = self.eval(node.slice, env)
             if isinstance(sel, Arr) and len(sel.shape) == 1:
@@ -1206,6 +1219,9 @@ class Evaluator:
                 raise AnalysisError("E3: key %r not in the modelled dictionary (line %d)" % (k, node.lineno))
             return base[k]
         return self.subscript(base, self.index_of(node.slice, env), node)
+
+    def hand_down(self, node, value):
+        self.__dict__.setdefault("_pre", {})[id(node)] = value
 
     def e_Attribute(self, node, env):
         base = self.eval(node.value, env)
@@ -1740,6 +1756,12 @@ class Evaluator:
                 shape = v.shape
             if isinstance(v, Opaque) and v.base.startswith("inv(") and not v.idx:
                 return Opaque(v.base[4:-1], shape)
+            if A is not None and len(shape) == 2 and shape[0] == shape[1] and 2 <= shape[0] <= 3 and triangular(A) \
+                    and not closed_constant(A) and A._opaque_base() is None:
+                # a triangular matrix has a closed-form inverse in its own entries (so inv(inv(T)) is T again)
+                ex = exact_inverse(A)
+                if ex is not None:
+                    return ex
             if A is not None and len(shape) == 2 and shape[0] == shape[1] and shape[0] <= 3 and closed_constant(A):
                 ex = exact_inverse(A)
                 if ex is None:
@@ -1939,6 +1961,14 @@ def closed_constant(A: Arr):
                 continue
             return False
     return True
+
+
+def triangular(A: Arr):
+    m = [[scalar(x) for x in r] for r in A.data]
+    n_ = len(m)
+    up = all(m[i][j].is_zero() for i in range(n_) for j in range(i))
+    lo = all(m[i][j].is_zero() for i in range(n_) for j in range(i + 1, n_))
+    return (up or lo) and not all(m[i][i].is_zero() for i in range(n_))
 
 
 def exact_inverse(A: Arr):
